@@ -12,5 +12,7 @@ for d in seeded/$pat; do
   if echo "$out" | grep -q "patch does not apply\|^error:"; then echo "STALE     $d (patch does not apply)"; missed=$((missed+1)); elif echo "$out" | grep -q "^VIOLATION property=$id"; then echo "reported  $d"; else echo "MISSED    $d"; missed=$((missed+1)); fi
 done
 git -C /repo status --short
+# every patched tree leaves its objects in the Go build cache (it reached 110 GB once and blocked sandbox snapshots): trim it
+sz=$(du -sm /root/.cache/go-build 2>/dev/null | cut -f1); if [ "${sz:-0}" -gt 20000 ]; then GOFLAGS=-mod=mod go clean -cache; fi
 echo "missed: $missed"
 exit $missed
